@@ -23,7 +23,7 @@ RULE = ("Hypothesis-generated histories over SmartCloudSync (local id- or path-s
         "listing of every folder reports local files as synced and remote-only files as not synced.  Non-trivial = >=1 "
         "remote-only file that stays unrequested through >=1 sync step and >=1 request or un-request.")
 ASSUMPTIONS = [
-    "mock providers; remote side id-style as in the upstream fixtures; no renames and no local deletes are generated (smart_rename / smart_delete_path are separate APIs outside the statement)",
+    "mock providers; remote side id-style (as in the upstream fixtures) in two thirds of the cases, path-style in the rest; no renames and no local deletes are generated (smart_rename / smart_delete_path are separate APIs outside the statement)",
     "requests and un-requests are issued for files the engine already knows (present at the last quiet point), from the application thread between engine steps",
     "within a window a file is touched by one actor only (no conflicts: C02/C05 cover those)",
 ]
@@ -37,7 +37,7 @@ def budget(tier):
 
 
 def gen(d, tier):
-    cfg = {"L": d.choice(("id", "path")), "R": "id", "salt": d.int(0, 7), "auto": d.bool()}
+    cfg = {"L": d.choice(("id", "path")), "R": d.choice(("id", "id", "path")), "salt": d.int(0, 7), "auto": d.bool()}
     acts = [["u", 1, "mkdir", "/f"], ["u", 1, "create", "/r1", "v0a"], ["u", 1, "create", "/f/r2", "v0b"], ["settle"]]
     R, known, present, requested, lcreated = {"/r1": "v0a", "/f/r2": "v0b"}, {"/r1", "/f/r2"}, set(), set(), set()
     touched = set()
@@ -76,6 +76,17 @@ def gen(d, tier):
                     R[p] = content()
                     acts.append(["u", d.int(0, 1), "write", p, R[p]])
                     quiet()
+                if d.chance(1, 2) and p in R and p not in lcreated:
+                    # ... and finally the remote owner un-requests it (if needed), deletes it and puts a new file of the
+                    # same name there before the engine has looked: a new remote-only file, listed as not synced
+                    if p in requested:
+                        acts.append(["unrequest", p, d.choice(("path", "oid"))]); requested.discard(p); present.discard(p); quiet()
+                    if p not in present:
+                        acts.append(["u", 1, "delete", p])
+                        R[p] = content()
+                        acts.append(["u", 1, "create", p, R[p]])
+                        quiet()
+                        acts.append(["listdir", p.rpartition("/")[0]])
             continue
         if k == "r_create":
             cands = [f + "/" + nm for f in FOLDERS for nm in RNAMES if f + "/" + nm not in R and f + "/" + nm not in touched]
@@ -158,12 +169,14 @@ def in_domain(trace):
     """within a window every file is touched by one actor only; listings directly after a settle"""
     touched = set()
     prev = None
+    prev_act = None
     for a in trace["acts"]:
         if a[0] == "settle":
             touched = set()
         elif a[0] == "u":
             if a[2] != "mkdir":
-                if a[3] in touched:
+                recreate = a[2] == "create" and a[1] == 1 and prev_act is not None and prev_act[:4] == ["u", 1, "delete", a[3]]
+                if a[3] in touched and not recreate:
                     return False
                 touched.add(a[3])
         elif a[0] in ("request", "unrequest"):
@@ -173,6 +186,7 @@ def in_domain(trace):
         elif a[0] == "listdir" and prev not in ("settle", "listdir"):
             return False
         prev = a[0]
+        prev_act = list(a)
     return True
 
 
